@@ -28,6 +28,10 @@ FAMILY = "lightclients"
 SPEC_DIR = os.path.join(vk.SPEC, "lightclients")
 PROPS = ["C26", "C27", "C28", "C29"]
 HOOK_FILE = "modules/light-clients/08-wasm/recovery_store_verif.go"
+try:
+    _SEED = int(os.environ.get("VERIF_SEED", "1"))       # also drives the harness key material
+except ValueError:
+    _SEED = 1
 
 SOLO_CONST = dict(KEYS={1, 2, 3}, DIVS={"d1", "d2"}, PATHS={"p1", "p2"}, DATA={"x", "y"}, MaxTs=100000)
 FORMS = {"single": {"full", "wrongtype", "partial"}, "multi": {"full", "partial", "wrongtype"}}
@@ -42,8 +46,8 @@ def sizes(tier):
                     wasm=dict(DFULL=1, DMUT=2, PREP={"S", "T"}), wasm_mc=dict(NK=2), shards=3)
     return dict(solo_walks=150, solo_depth=40, solo_mc=dict(MaxSeq=3, MaxTs=3),
                 att=dict(LMAX=4, PMAX=3, HLEN=3), att_hists=1458, att_mc=dict(MaxH=3, LMAX=3),
-                lh=dict(BOTHKEYS=True, LOOPK={3, 4}, LOOPD={1, 2}), lh_mc=dict(MaxH=8, MaxSeqL=2),
-                wasm=dict(DFULL=2, DMUT=3, PREP={"S", "T", "N", "M"}), wasm_mc=dict(NK=3), shards=8)
+                lh=dict(BOTHKEYS=True, LOOPK={3, 4}, LOOPD={1, 2}), lh_mc=dict(MaxH=7, MaxSeqL=2),
+                wasm=dict(DFULL=2, DMUT=3, PREP={"S", "T"}), wasm_mc=dict(NK=3), shards=8)
 
 
 def hook_present():
@@ -123,6 +127,7 @@ def drive(binary, test, env_files, workdir, tag, timeout=3000):
         env[k] = p
     tp = os.path.join(workdir, "%s_trace.ndjson" % tag)
     env["VERIF_TRACE"] = tp
+    env["VERIF_SEED"] = str(_SEED)
     rc, out = vk.run_driver(binary, test, env, timeout=timeout)
     if rc != 0 or not os.path.exists(tp):
         raise vk.Infra("driver %s failed (rc=%d):\n%s" % (test, rc, out[-3000:]))
@@ -370,9 +375,21 @@ WASM_CONST = dict(NK=2, VALS={"1", "2"})
 
 
 def wasm_generate(tier, seed, workdir, with_has):
-    sz = sizes(tier)
-    cf = os.path.join(workdir, "gen_wasm_cases.ndjson")
-    (cases,) = gen("Gen_WasmRecoveryStore", dict(WASM_CONST, WITHHAS=with_has, OutFile=cf, **sz["wasm"]), [cf], timeout=3000)
+    sz = sizes(tier)["wasm"]
+    # two TLC runs side by side: the wide part (every operation after short prefixes) and the deep part
+    parts = [dict(sz, DMUT=0), dict(sz, DFULL=0)]
+
+    def one(ix):
+        cf = os.path.join(workdir, "gen_wasm_cases_%d.ndjson" % ix)
+        (cs,) = gen("Gen_WasmRecoveryStore", dict(WASM_CONST, WITHHAS=with_has, OutFile=cf, **parts[ix]), [cf], timeout=3000)
+        return cs
+    seen, cases = set(), []
+    for cs in vk.pmap(one, [0, 1], 2):
+        for c in cs:
+            k = json.dumps(c, sort_keys=True)
+            if k not in seen:
+                seen.add(k)
+                cases.append(c)
     for i, c in enumerate(cases):
         c["id"] = "wasm-%d" % i
         c["spec"] = "wasm"
@@ -419,6 +436,8 @@ FLOORS = {
 # ------------------------------------------------------------------------------------------ family entry points
 
 def run_family(tier, seed):
+    global _SEED
+    _SEED = seed
     t0 = time.time()
     workdir = os.path.join(vk.CACHE, "work", FAMILY + vk.repo_tag())
     shutil.rmtree(workdir, ignore_errors=True)
